@@ -41,6 +41,7 @@ type MultilineReverseSuffixSearcher struct {
 	prefilter    prefilter.Prefilter
 	prefixBytes  []byte    // Prefix literal for fast verification (nil = use DFA)
 	suffixLen    int       // Length of the suffix literal
+	suffixBytes  []byte    // The suffix literal every match ends with
 	forwardDFA   *lazy.DFA // Fallback DFA for complex patterns
 	fwdCachePool sync.Pool
 }
@@ -92,6 +93,7 @@ func NewMultilineReverseSuffixSearcher(
 		prefixBytes: nil, // Will be set by SetPrefixLiterals if applicable
 		forwardDFA:  forwardDFA,
 		suffixLen:   suffixLen,
+		suffixBytes: suffixBytes,
 	}
 	s.fwdCachePool = sync.Pool{
 		New: func() any { return s.forwardDFA.NewCache() },
@@ -102,7 +104,7 @@ func NewMultilineReverseSuffixSearcher(
 // SetPrefixLiterals enables fast path verification using prefix literals.
 // Call this after construction if the pattern has a simple structure: ^prefix.*suffix
 func (s *MultilineReverseSuffixSearcher) SetPrefixLiterals(prefixLiterals *literal.Seq) {
-	if prefixLiterals != nil && !prefixLiterals.IsEmpty() {
+	if prefixLiterals != nil && !prefixLiterals.IsEmpty() && !prefixLiterals.IsPartialCoverage() {
 		// Get the longest common prefix for verification
 		s.prefixBytes = prefixLiterals.LongestCommonPrefix()
 	}
@@ -137,124 +139,28 @@ func (s *MultilineReverseSuffixSearcher) verifyPrefix(haystack []byte, at int) b
 	return bytes.HasPrefix(haystack[at:], s.prefixBytes)
 }
 
-// Find searches using suffix literal prefilter + line-aware verification.
+// Find searches using suffix literal prefilter + line-aware verification and
+// returns the leftmost-first match.
 //
-// Fast path (when prefix literals available):
-//  1. Find suffix using SIMD prefilter
-//  2. Find line start (backward scan using SIMD)
-//  3. Verify prefix with simple byte comparison
-//  4. Return match immediately if prefix matches
-//  5. On failure, skip to next line (all candidates on same line will fail)
-//
-// Slow path (complex patterns):
-//  1. Same candidate finding
-//  2. Use forward DFA for verification
-//
-// Performance: O(n) with very low constant factor for fast path.
-// Key optimization: when prefix fails, skip entire line - avoids O(n²) worst case.
+// The strategy is only selected for patterns that begin with (?m)^ and cannot
+// consume a newline, so every match starts at a line start and lies within one
+// line, and every match ends with the suffix literal. Lines without the suffix
+// are skipped by the memmem scan; for a line that has one the forward DFA,
+// anchored at the line start, decides whether the line matches and yields the
+// leftmost-first end (the first suffix occurrence of the line is not the end
+// of a greedy match, and a prefix literal overlapping the suffix is not a
+// match: `^aaaa.*aa` on "aaaaaA"). The prefix literal is only used to reject.
 func (s *MultilineReverseSuffixSearcher) Find(haystack []byte) *Match {
-	if len(haystack) == 0 {
-		return nil
-	}
-
-	// Iterate through suffix candidates
-	pos := 0
-	for {
-		// Find next suffix candidate using prefilter (SIMD accelerated)
-		suffixPos := s.prefilter.Find(haystack, pos)
-		if suffixPos == -1 {
-			return nil
-		}
-
-		// Find the start of the line containing this suffix
-		lineStart := findLineStart(haystack, suffixPos)
-
-		// Fast path: simple prefix verification (just byte comparison)
-		if len(s.prefixBytes) > 0 {
-			if s.verifyPrefix(haystack, lineStart) {
-				// Match found! No DFA needed.
-				return NewMatch(lineStart, suffixPos+s.suffixLen, haystack)
-			}
-			// Prefix doesn't match at this line start.
-			// Optimization: skip to next line - all other candidates on this line
-			// will have the same lineStart and will also fail.
-			nextLine := bytes.IndexByte(haystack[suffixPos:], '\n')
-			if nextLine == -1 {
-				return nil // No more lines
-			}
-			pos = suffixPos + nextLine + 1
-		} else {
-			// Slow path: use DFA for complex pattern verification
-			fwdCache := s.fwdCachePool.Get().(*lazy.DFACache)
-			end := s.forwardDFA.SearchAtAnchored(fwdCache, haystack, lineStart)
-			s.fwdCachePool.Put(fwdCache)
-			if end >= 0 {
-				return NewMatch(lineStart, end, haystack)
-			}
-			// Move past this suffix candidate
-			pos = suffixPos + 1
-		}
-
-		if pos >= len(haystack) {
-			return nil
-		}
-	}
+	return s.FindAt(haystack, 0)
 }
 
-// FindAt searches for a match starting from position 'at'.
-//
-// Returns the first match starting at or after position 'at'.
-// Essential for FindAll iteration.
-//
-// Performance: O(n) with very low constant factor for fast path.
-// Key optimization: when prefix fails, skip entire line - avoids O(n²) worst case.
+// FindAt returns the leftmost-first match starting at or after position 'at'.
 func (s *MultilineReverseSuffixSearcher) FindAt(haystack []byte, at int) *Match {
-	if at >= len(haystack) {
+	start, end, found := s.FindIndicesAt(haystack, at)
+	if !found {
 		return nil
 	}
-
-	pos := at
-	for {
-		// Find next suffix candidate starting from pos
-		suffixPos := s.prefilter.Find(haystack, pos)
-		if suffixPos == -1 {
-			return nil
-		}
-
-		// Find line start (but not before 'at' for FindAt semantics)
-		lineStart := findLineStart(haystack, suffixPos)
-		if lineStart < at {
-			// The line starts before our search position.
-			lineStart = at
-		}
-
-		// Fast path: simple prefix verification
-		if len(s.prefixBytes) > 0 {
-			if s.verifyPrefix(haystack, lineStart) {
-				return NewMatch(lineStart, suffixPos+s.suffixLen, haystack)
-			}
-			// Prefix doesn't match - skip to next line
-			nextLine := bytes.IndexByte(haystack[suffixPos:], '\n')
-			if nextLine == -1 {
-				return nil // No more lines
-			}
-			pos = suffixPos + nextLine + 1
-		} else {
-			// Slow path: use DFA
-			fwdCache := s.fwdCachePool.Get().(*lazy.DFACache)
-			end := s.forwardDFA.SearchAtAnchored(fwdCache, haystack, lineStart)
-			s.fwdCachePool.Put(fwdCache)
-			if end >= 0 {
-				return NewMatch(lineStart, end, haystack)
-			}
-			// Move past this suffix candidate
-			pos = suffixPos + 1
-		}
-
-		if pos >= len(haystack) {
-			return nil
-		}
-	}
+	return NewMatch(start, end, haystack)
 }
 
 // FindIndicesAt returns match indices starting from position 'at' - zero allocation version.
@@ -274,106 +180,48 @@ func (s *MultilineReverseSuffixSearcher) FindIndicesAtWithCaches(haystack []byte
 	return s.findIndicesAtImpl(haystack, at, fwdCache)
 }
 
-// findIndicesAtImpl is the shared implementation for FindIndicesAt and FindIndicesAtWithCaches.
+// findIndicesAtImpl is the shared implementation of every find entry point.
 func (s *MultilineReverseSuffixSearcher) findIndicesAtImpl(haystack []byte, at int, fwdCache *lazy.DFACache) (start, end int, found bool) {
 	if at >= len(haystack) {
 		return -1, -1, false
 	}
 
 	pos := at
-	for {
-		// Find next suffix candidate starting from pos
-		suffixPos := s.prefilter.Find(haystack, pos)
+	for pos < len(haystack) {
+		suffixPos := bytes.Index(haystack[pos:], s.suffixBytes)
 		if suffixPos == -1 {
 			return -1, -1, false
 		}
+		suffixPos += pos
 
-		// Find line start (but not before 'at' for FindAt semantics)
+		// The only possible start of a match ending on this line is the line
+		// start - if that lies in the searched region.
 		lineStart := findLineStart(haystack, suffixPos)
-		if lineStart < at {
-			lineStart = at
-		}
-
-		// Fast path: simple prefix verification
-		if len(s.prefixBytes) > 0 {
-			if s.verifyPrefix(haystack, lineStart) {
-				return lineStart, suffixPos + s.suffixLen, true
-			}
-			// Prefix doesn't match - skip to next line
-			nextLine := bytes.IndexByte(haystack[suffixPos:], '\n')
-			if nextLine == -1 {
-				return -1, -1, false
-			}
-			pos = suffixPos + nextLine + 1
-		} else {
-			// Slow path: use DFA
+		if lineStart >= at && s.prefixMayMatch(haystack, lineStart) {
 			endPos := s.forwardDFA.SearchAtAnchored(fwdCache, haystack, lineStart)
 			if endPos >= 0 {
 				return lineStart, endPos, true
 			}
-			// Move past this suffix candidate
-			pos = suffixPos + 1
 		}
 
-		if pos >= len(haystack) {
+		// No match on this line: continue after its end
+		nextLine := bytes.IndexByte(haystack[suffixPos:], '\n')
+		if nextLine == -1 {
 			return -1, -1, false
 		}
+		pos = suffixPos + nextLine + 1
 	}
+	return -1, -1, false
+}
+
+// prefixMayMatch is a quick rejection test: every match starts with the common
+// prefix of the pattern's prefix literals.
+func (s *MultilineReverseSuffixSearcher) prefixMayMatch(haystack []byte, at int) bool {
+	return len(s.prefixBytes) == 0 || bytes.HasPrefix(haystack[at:], s.prefixBytes)
 }
 
 // IsMatch checks if the pattern matches using suffix prefilter + line-aware verification.
-//
-// Optimized for boolean matching:
-//   - Uses prefilter for fast candidate finding
-//   - Fast path: simple prefix byte comparison
-//   - Slow path: forward DFA verification
-//   - Early termination on first match
-//   - No Match object allocation
-//
-// Performance: O(n) with very low constant factor for fast path.
-// Key optimization: when prefix fails, skip entire line - avoids O(n²) worst case.
 func (s *MultilineReverseSuffixSearcher) IsMatch(haystack []byte) bool {
-	if len(haystack) == 0 {
-		return false
-	}
-
-	// Iterate through suffix candidates
-	pos := 0
-	for {
-		// Find next suffix candidate
-		suffixPos := s.prefilter.Find(haystack, pos)
-		if suffixPos == -1 {
-			return false
-		}
-
-		// Find line start
-		lineStart := findLineStart(haystack, suffixPos)
-
-		// Fast path: simple prefix verification
-		if len(s.prefixBytes) > 0 {
-			if s.verifyPrefix(haystack, lineStart) {
-				return true
-			}
-			// Prefix doesn't match - skip to next line
-			nextLine := bytes.IndexByte(haystack[suffixPos:], '\n')
-			if nextLine == -1 {
-				return false // No more lines
-			}
-			pos = suffixPos + nextLine + 1
-		} else {
-			// Slow path: use DFA
-			fwdCache := s.fwdCachePool.Get().(*lazy.DFACache)
-			matched := s.forwardDFA.SearchAtAnchored(fwdCache, haystack, lineStart) >= 0
-			s.fwdCachePool.Put(fwdCache)
-			if matched {
-				return true
-			}
-			// Move past this suffix candidate
-			pos = suffixPos + 1
-		}
-
-		if pos >= len(haystack) {
-			return false
-		}
-	}
+	_, _, found := s.FindIndicesAt(haystack, 0)
+	return found
 }
